@@ -1,4 +1,5 @@
 import ClientGoVerif.Model.Retry
+import ClientGoVerif.Model.Selector
 open CGV CGV.Retry
 
 /-- driver session: configuration being assembled, then the model state and the trace it accepted -/
@@ -8,6 +9,9 @@ structure Sess where
   st : Option State := none
   trace : List Ev := []      -- accepted events, newest first
   rejected : Nat := 0
+  sel : Option Selector.Sel := none   -- selector model state (before the next `next`)
+  selEntered : Bool := false          -- the request entered as a stale read
+  selRules : Bool := true             -- R1–R4 held on every model post-state
 
 def parseCfgLine (w : List String) : Option Cfg :=
   match w with
@@ -57,6 +61,80 @@ def rejReason (s : State) : Ev → String
     | .errFatal => "error-without-fatal-answer"
     | .errOther => "unexpected-error"
 
+/-! ## selector tie -/
+namespace SelDrv
+open CGV.Selector
+
+def bit (c : Char) : Option Bool := if c == '0' then some false else if c == '1' then some true else none
+
+/-- `attempts:flags(5):live+inputs(5)` -/
+def parseRep (t : String) : Option Rep :=
+  match t.splitOn ":" with
+  | [a, f, i] => do
+    let a ← a.toNat?
+    match f.toList, i.toList with
+    | [f1, f2, f3, f4, f5], [l, i1, i2, i3, i4, i5] =>
+      let live ← (String.singleton l).toNat?
+      pure { attempts := a, deadline := ← bit f1, dataNotReady := ← bit f2, notLeader := ← bit f3, serverBusy := ← bit f4,
+             suspect := ← bit f5, live := live, slow := ← bit i1, stale := ← bit i2, label := ← bit i3, learner := ← bit i4,
+             over := ← bit i5 }
+    | _, _ => none
+  | _ => none
+
+/-- snapshot tokens → (target, observed selector built on the static fields of `base`) -/
+def parseSnap (base : Sel) (w : List String) : Option (Nat × Sel × List String) :=
+  match w with
+  | t :: li :: rl :: rt :: sa :: bt :: ir :: va :: bc :: bp :: pr :: rr :: sr :: bm :: r0 :: r1 :: r2 :: rest => do
+    let reps ← [r0, r1, r2].mapM parseRep
+    let s : Sel := { base with
+      reps := reps, leaderIdx := ← li.toNat?, readLeader := ← parseBool rl, reqType := ← rt.toNat?, selAtt := ← sa.toNat?,
+      busyThr := ← parseBool bt, invRetry := ← parseBool ir, valid := ← parseBool va, busyCnt := ← bc.toNat?,
+      busyPeer := ← bp.toNat?, probed := ← parseBool pr, rr := ← parseBool rr, sr := ← parseBool sr, busyMs := ← parseBool bm }
+    pure (← t.toNat?, s, rest)
+  | _ => none
+
+def refresh (m obs : Sel) : Sel := refreshInputs m obs.reps
+
+def ownedRep (r : Rep) : Nat × List Bool := (r.attempts, [r.deadline, r.dataNotReady, r.notLeader, r.serverBusy, r.suspect])
+
+/-- first selector-owned field in which model and implementation differ -/
+def diffSel (m o : Sel) : Option String :=
+  if m.reps.map ownedRep != o.reps.map ownedRep then some "replica-state"
+  else if m.leaderIdx != o.leaderIdx then some "leader"
+  else if m.readLeader != o.readLeader then some "read-type"
+  else if m.reqType != o.reqType then some "req-read-type"
+  else if m.selAtt != o.selAtt then some "selector-attempts"
+  else if m.busyThr != o.busyThr then some "busy-threshold"
+  else if m.invRetry != o.invRetry then some "invalidated-for-retry"
+  else if m.valid != o.valid then some "region-valid"
+  else if m.probed != o.probed || (m.busyCnt != o.busyCnt && !m.probed) then some "leader-busy-probe"
+  else if m.rr != o.rr then some s!"flag-ReplicaRead model={m.rr}"
+  else if m.sr != o.sr then some s!"flag-StaleRead model={m.sr}"
+  else if m.busyMs != o.busyMs then some "flag-BusyThresholdMs"
+  else none
+
+def parseSelInit (w : List String) : Option Sel :=
+  match w with
+  | [rl, rt, st, ro, lo, pl, hl, bt, rr, sr, bm, _n] => do
+    let vrl ← parseBool rl
+    let vrt ← rt.toNat?
+    let vst ← parseBool st
+    let vro ← parseBool ro
+    let vlo ← parseBool lo
+    let vpl ← parseBool pl
+    let vhl ← parseBool hl
+    let vbt ← parseBool bt
+    let vrr ← parseBool rr
+    let vsr ← parseBool sr
+    let vbm ← parseBool bm
+    pure { reps := [{}, {}, {}], readLeader := vrl, reqType := vrt, stale := vst, readOnly := vro,
+           leaderOnly := vlo, preferLeader := vpl, hasLabels := vhl, busyThr := vbt, rr := vrr, sr := vsr, busyMs := vbm }
+  | _ => none
+
+def showSet (l : List Nat) : String := " ".intercalate (l.map toString)
+
+end SelDrv
+
 def lexLt (a b : Nat × Nat) : Bool := a.1 < b.1 || (a.1 = b.1 && a.2 < b.2)
 
 def stepLine (ss : Sess) (line : String) : Sess × String :=
@@ -84,6 +162,56 @@ def stepLine (ss : Sess) (line : String) : Sess × String :=
         else ({ ss with st := some s', trace := e :: ss.trace }, "ok")
       else ({ ss with rejected := ss.rejected + 1 }, "rej " ++ rejReason s e)
     | _, _ => (ss, "bad-op")
+  | "selinit" :: rest =>
+    (match SelDrv.parseSelInit rest with
+     | some s => ({ ss with sel := some s, selEntered := s.sr, selRules := true }, "ok")
+     | none => (ss, "bad-op"))
+  | "sel" :: rest =>
+    (match ss.sel with
+     | none => (ss, "bad-op")
+     | some m =>
+       match SelDrv.parseSnap m rest with
+       | some (t, obs, [fault, short]) =>
+         let m0 := SelDrv.refresh m obs
+         let (set, m1) := Selector.next m0 t
+         let short := short == "1"
+         if !set.contains t then
+           ({ ss with sel := some (Selector.handle obs t fault short) }, s!"rej choice {t} not in [{SelDrv.showSet set}]")
+         else match SelDrv.diffSel m1 obs with
+           | some d => ({ ss with sel := some (Selector.handle obs t fault short) }, "rej " ++ d)
+           | none => ({ ss with sel := some (Selector.handle m1 t fault short),
+                                selRules := ss.selRules && Selector.readFlagRules m1 t ss.selEntered }, "ok")
+       | _ => (ss, "bad-op"))
+  | "selend" :: rest =>
+    (match ss.sel with
+     | none => (ss, "bad-op")
+     | some m =>
+       match SelDrv.parseSnap m rest with
+       | some (t, obs, [ran, res]) =>
+         let m0 := SelDrv.refresh m obs
+         if ran == "1" then
+           -- the loop ended because `next` found no replica: the model must find none either
+           let (set, m1) := Selector.next m0 0
+           if !set.isEmpty then (ss, s!"rej no-candidate model=[{SelDrv.showSet set}]")
+           else match SelDrv.diffSel m1 obs with
+             | some d => (ss, "rej end " ++ d)
+             | none => (ss, "ok")
+         else
+           let m1 := if res == "ok" then
+               (match ss.trace.head? with
+                | some (.send p _ _ _ _ _ _ _ _) => Selector.onSuccess m0 (p - 1)
+                | _ => m0)
+             else m0
+           match SelDrv.diffSel m1 obs with
+           | none => (ss, "ok")
+           | some d =>
+             -- an error result may come from a back-off refused AFTER one more `next` (backoffOnRetry / backoffOnNoCandidate)
+             if res == "err" then
+               let (set, m2) := Selector.next m0 t
+               if (set.contains t || (t == 9 && set.isEmpty)) && (SelDrv.diffSel m2 obs).isNone then (ss, "ok")
+               else (ss, "rej end " ++ d)
+             else (ss, "rej end " ++ d)
+       | _ => (ss, "bad-op"))
   | ["prop", p] =>
     match ss.st with
     | none => (ss, "bad-op")
@@ -97,6 +225,8 @@ def stepLine (ss : Sess) (line : String) : Sess × String :=
         | "retrymarked" => some (propRetryMarked es)
         | "tsvalid" => some (propTsValid c es)
         | "backoffdiscipline" => some (propBackoffDiscipline c.shortRead es)
+        | "readflags" => some ss.selRules
+        | "candidate" => some true   -- theorem chosen_is_candidate: every member of the model's choice set is sendable
         | _ => none
       match r with
       | some true => (ss, "ok")
